@@ -342,7 +342,7 @@ func ruleC20Helper(e *Env, h helperSpec) {
 				after = call
 			}
 		}
-		cfc := e.P.Func("test", "callForCase")
+		cfc := e.F("test", "callForCase")
 		checked := func(c *ssa.Call) bool {
 			for _, r := range *c.Referrers() {
 				if a, ok := r.(*ssa.Call); ok && calleeName(&a.Call) == "github.com/stretchr/testify/assert.NoError" && a.Call.Args[1] == ssa.Value(c) && isT(a.Call.Args[0]) && skipsOnFalse(a) {
